@@ -195,7 +195,7 @@ def group_name(pol, scan):
 
 def build_product(level="1.5", images=(("HH", None, 5, 4),), seed=0, leader=None, nfp=None, scene_id="ALOS2014410740-140829",
                   product_id=None, ctx=None, overrides=None, line_overrides=None, summary_extra=None, plan=None,
-                  pixel_special=True, blank=None, kind=None, sample=None, salt_base=None):
+                  pixel_special=True, blank=None, kind=None, sample=None, salt_base=None, informational=None):
     """build a complete product.
 
     images: sequence of (pol, scan|None, n_lines, n_pixels)
@@ -294,6 +294,12 @@ def build_product(level="1.5", images=(("HH", None, 5, 4),), seed=0, leader=None
         filekey, recname, nth, path = key
         fb = b.builders[filekey]
         fb.put(fb.rec(recname, nth), path, None)
+    # declared-but-informational values (FileFormat!Informational): alternative number `informational` (0, 1, 2) of each
+    if informational is not None:
+        for fkey in ("VOL", "LED"):
+            fb = b.builders[fkey]
+            for r, path, alts in fb.inst.get("informational", []):
+                fb.put(r - 1, path, alts[informational % len(alts)])
     b.files[vol_name] = vol.bytes()
     b.files[led_name] = led.bytes()
     for im in b.images:
